@@ -191,6 +191,11 @@ def run(ctx):
             ctx.problem('oracle', 'property fails on the implementation: ' + why, inputs=js, failing_input_found=True)
             break
     ctx.suites['option_lattice'] = {'instances': ctx.n(14, 140)}
+    why = probe_kernel_scale()
+    ctx.suites['kernel_basis_small_scale'] = {'cases': 3, 'failure': why}
+    ctx.evaluations += 3
+    if why:
+        ctx.problem('oracle', 'property fails on the implementation: ' + why, inputs={'suite': 'kernel_basis_small_scale'}, failing_input_found=True)
     # the listed witness of F7
     if 'F7' in kf:
         if probe_f7():
@@ -219,7 +224,35 @@ def probe_f7():
     return v0[0] == 'solved' and v0[1] > -1 and v1[0] == 'solved' and v1[1] == -math.inf
 
 
+def probe_kernel_scale():
+    """kernel_basis=True must not change the bound, whatever the scale of the exponents (fixed in /repo ebf4ea5; kept as a directed case):
+    f_s(x) = 1 - 2.5 exp(s x) + exp(2 s x) has minimum -0.5625 for every s > 0"""
+    import sageopt.coniclifts as cl
+    import sageopt as so
+    import sageopt.coniclifts.constraints.set_membership.sage_cones as sc
+    from sageopt.relaxations import sage_sigs as ss
+    saved = dict(sc.SETTINGS)
+    try:
+        with warnings.catch_warnings():
+            warnings.simplefilter('ignore')
+            for s_ in (1.0, 2.0 ** -11, 5e-7):
+                f = so.Signomial(np.array([[0.0], [s_], [2 * s_]]), np.array([1.0, -2.5, 1.0]))
+                for kb in (False, True):
+                    cl.kernel_basis_age_witnesses(kb)
+                    st, val = ss.sig_relaxation(f, form='primal').solve(verbose=False)
+                    if st == 'solved' and val > -0.5625 + 1e-4:
+                        return ('primal SAGE bound of 1 - 2.5 exp(%g x) + exp(%g x) with kernel_basis=%s is %r, above the minimum -0.5625'
+                                % (s_, 2 * s_, kb, val))
+    finally:
+        sc.SETTINGS.clear()
+        sc.SETTINGS.update(saved)
+    return None
+
+
 def search(ctx):
+    why = probe_kernel_scale()
+    if why:
+        return {'suite': 'kernel_basis_small_scale', 'property_failure': why}
     for _ in range(25):
         why, known, js, out = one(ctx.rng)
         if why:
